@@ -407,7 +407,11 @@ class NodeDef:
         value.info = self.info
         environment.put(self.identifier, value)
         import ckl.functions
-        if isinstance(value, ckl.functions.FuncLambda):
+        if (
+            isinstance(value, ckl.functions.FuncLambda)
+            and value.name == "lambda"
+        ):
+            # an anonymous function gets the name it is first defined as
             value.name = self.identifier
         return value
 
